@@ -22,6 +22,9 @@ example : IPPORT_DEFAULT_HOST = "0.0.0.0" := by decide
 example : TYPE_SUBNETS = "parse_subnetport" ∧ TYPE_EXCLUDE = "parse_subnetport" := by decide
 example : TYPE_TO_NS = "parse_ipport" ∧ TYPE_LISTEN = "" ∧ TYPE_REMOTE = "" := by decide
 example : ENV_ARGS_FIRST = true := by decide
+/-- the options whose argparse action is `store` (a later occurrence replaces an earlier one);
+`--listen` and `--remote` among them is what `C16_env_override` / `C16_listen_env` rely on -/
+example : STORE_OPTIONS = ["--listen", "--ns-hosts", "--to-ns", "--method", "--python", "--remote", "--ssh-cmd", "--remote-shell", "--seed-hosts", "--latency-buffer-size", "--wrap", "--pidfile", "--user", "--group", "--sudoers-user", "--tmark", "--namespace", "--namespace-pid"] := by decide
 example : INT_MAX_STR_DIGITS = 4300 := by decide
 
 end Sshuttle.Args.Pins
